@@ -130,6 +130,23 @@ theorem C07_inline_no_capture (c : Call) (h : NoOuterClash c) : FreshFrame c (re
     simp only [renOf] at heq
     split at heq <;> split at heq <;> omega
 
+/-- the frame the driver uses to execute original programs is fresh for every call -/
+theorem C07_farFrame_fresh (c : Call) : FreshFrame c (farFrame c) := by
+  constructor
+  · intro l _ hvis
+    have : farFrame c l ∈ allNames c := by
+      simp only [visible, List.mem_append] at hvis
+      simp only [allNames, List.mem_append]
+      rcases hvis with h1 | h1
+      · exact Or.inl (Or.inl (Or.inl h1))
+      · exact Or.inl (Or.inl (Or.inr h1))
+    have := le_maxList this
+    simp only [farFrame] at this
+    omega
+  · intro l _ l' _ heq
+    simp only [farFrame] at heq
+    omega
+
 /-- **The property, under the three side conditions.** -/
 theorem C07_inline_visible_partial (c : Call) (s : Stmt) (hin : inline c = .ok s)
     (hwf : WellFormed c) (hst : IndexStable c) (hno : NoOuterClash c) :
